@@ -1,0 +1,35 @@
+//go:build verif
+
+package route
+
+import (
+	"net/http"
+
+	"github.com/honeycombio/refinery/types"
+)
+
+// Verification hooks for property C09 (export only, no behaviour).
+
+// VerifC09Unmarshal exposes unmarshal (the body decoder of the event and batch handlers).
+func VerifC09Unmarshal(contentType string, data []byte, v any) error {
+	req, err := http.NewRequest(http.MethodPost, "/", nil)
+	if err != nil {
+		return err
+	}
+	req.Header.Set("Content-Type", contentType)
+	return unmarshal(req, data, v)
+}
+
+// VerifC09DecodeBatch decodes a /1/batch body exactly as Router.batch does (newBatchedEvents +
+// unmarshal) and returns the payload of every event.
+func VerifC09DecodeBatch(opts types.CoreFieldsUnmarshalerOptions, contentType string, data []byte) ([]types.Payload, error) {
+	batch := newBatchedEvents(opts)
+	if err := VerifC09Unmarshal(contentType, data, batch); err != nil {
+		return nil, err
+	}
+	out := make([]types.Payload, len(batch.events))
+	for i := range batch.events {
+		out[i] = batch.events[i].Data
+	}
+	return out, nil
+}
